@@ -6,7 +6,7 @@ import random
 import gen
 import ops
 import steps as S
-from common import Case, b, nat
+from common import Case, b, lst, nat
 from prosemirror.model import Fragment, Node, Slice
 from prosemirror.transform import Transform, structure
 from prosemirror.transform.transform import TransformError
@@ -171,6 +171,32 @@ def generate(rng: random.Random, tier: str):
                 yield iso_case(rng, fam, g, doc, docs, pos, node)
             pos, node = rng.choice(l)
             yield from helper_queries(rng, fam, doc, pos, node, 2 if quick else 4)
+
+
+    # can_split with types_after directly inside isolating nodes (appended stream): the isolating test is on the node that
+    # is split, not on the type the split-off part is to get (Model.StructOps.can_split_ta, C18_can_split_with_types_...)
+    for fam in FAMS:
+        g, docs = S.family_docs(rng, fam, 30 if quick else 200)
+        sc = gen.family(fam)
+        info = S.info_for(fam)
+        import c12
+        from pm import attrs_term
+        blocky = [t for t in sc.nodes.values() if not t.is_text and not t.is_inline and not t.is_leaf and not t.spec.get("isolating")]
+        for doc in docs:
+            for pos, node in iso_nodes(doc)[:3]:
+                inner = [p_ for p_ in S.boundary_positions(doc) if pos + 1 <= p_ <= pos + 1 + node.content.size
+                         and doc.resolve(p_).parent is node]
+                for p_ in inner[: (5 if quick else 8)]:
+                    for _ in range(2):
+                        depth = rng.randint(1, 2)
+                        ta = [structure.NodeTypeWithAttrs(t_, c12.g_attrs(rng, t_)) for t_ in [rng.choice(blocky) for _ in range(rng.randint(1, depth))]]
+                        taterm = lst(f"({info.ty(w.type)}, {attrs_term(w.attrs)})" for w in ta)
+                        ans = c12._answer(info, lambda: structure.can_split(doc, p_, depth, ta), "bool")
+                        yield Case(coq=f"CStruct @S@ {info.node(doc)} (QCanSplitTA {nat(p_)} {nat(depth)} {taterm}) {ans[0]}",
+                                   desc={"case": "struct", "family": fam, "doc": doc.to_json(),
+                                         "query": {"q": "can_split_ta", "pos": p_, "depth": depth,
+                                                   "types_after": [[w.type.name, w.attrs] for w in ta]}, "answer": ans[1]},
+                                   schema=info.schema_term(), kind=f"struct:can_split_ta-in-iso/{ans[1].split(chr(58))[0]}", nontrivial=True)
 
 
 def rebuild(desc):
